@@ -90,6 +90,21 @@ func (s *Stream) Apply(idx int, id string, declared []string, data any) (targets
 	}
 	for _, t := range targets {
 		if isMap {
+			switch s.State[t].Attrs.(type) {
+			case map[string]any, []any:
+			default:
+				// an empty or scalar document is replaced by the first map
+				// layered over it: later patterns see that map
+				rest := map[string]any{}
+				for k, v := range m {
+					if k != "$match" {
+						rest[k] = v
+					}
+				}
+				s.State[t].Attrs = rest
+			}
+		}
+		if isMap {
 			if rep, ok := m["$replace"].(bool); ok && rep {
 				// the whole document is replaced: later patterns see the new data
 				rest := map[string]any{}
